@@ -30,13 +30,18 @@ import (
 // chain builds i0 -> p0 -> p1 ... -> o0, every processor adds 1.
 // With cmd the processors also execute r2v, an opcode that hands a command to the VM's
 // command dispatcher goroutine (no emulation driver is attached in a plain simulation).
-func chain(k int, cmd bool) *bondmachine.Bondmachine {
+// With oneshot every processor but the last runs its program once and then sits past its end (no
+// trailing jump) while the rest of the chain finishes the run.
+func chain(k int, cmd, oneshot bool) *bondmachine.Bondmachine {
 	var ms []*procbuilder.Machine
 	var bonds [][2]string
 	for p := 0; p < k; p++ {
 		ops, prog := []string{"i2rw", "inc", "r2owa", "j"}, []string{"i2rw r0 i0", "inc r0", "r2owa r0 o0", "j 0"}
 		if cmd {
 			ops, prog = append(ops, "r2v"), []string{"i2rw r0 i0", "inc r0", "r2v r0 3", "r2owa r0 o0", "j 0"}
+		}
+		if oneshot && p < k-1 {
+			prog = prog[:len(prog)-1]
 		}
 		m, err := gen.NewMachine(8, 1, 1, 1, 0, 3, "ha", ops)
 		if err != nil {
@@ -167,11 +172,18 @@ func main() {
 	}
 	maxPerCall := 0.0
 	for _, e := range entries {
-		for ki, k := range append(append([]int{}, sizes...), sizes...) {
-			cmd := ki >= len(sizes)
-			bm := chain(k, cmd)
+		for ki, k := range append(append(append([]int{}, sizes...), sizes...), sizes...) {
+			cmd := ki >= len(sizes) && ki < 2*len(sizes)
+			oneshot := ki >= 2*len(sizes)
+			if oneshot && k == 1 {
+				k = 2 // a one-shot stage needs a looping stage after it
+			}
+			bm := chain(k, cmd, oneshot)
 			if cmd {
 				k += 100 // keeps the case keys distinct: 10k = k processors that also issue VM commands
+			}
+			if oneshot {
+				k += 200 // 20k = k processors of which all but the last have run off their program
 			}
 			for _, conc := range []int{1, 8} {
 				type obs struct {
